@@ -15,6 +15,7 @@ def base_types():
         lambda: Type(PQName([NameSpecifier("V", TemplateSpecialization([TemplateArgument(Type(PQName([FundamentalSpecifier("int")])))]))]), volatile=True),
         lambda: Type(PQName([NameSpecifier(""), NameSpecifier("G")]), const=True, volatile=True),
         lambda: Type(PQName([FundamentalSpecifier("long double")])),
+        lambda: Type(PQName([FundamentalSpecifier("short signed int")]), volatile=True),
     ]
 
 
